@@ -296,6 +296,75 @@ fn gate_battery(log: &mut Vec<String>) {
   }
 }
 
+/// DIDs are compared exactly: two DIDs that differ only in letter case are two DIDs. Entries under both, sharing a fragment, in
+/// every scope: insertion succeeds, full-id queries find exactly their entry, attach / detach / remove act on that entry only.
+fn case_variant_battery(log: &mut Vec<String>) {
+  let lower = "did:example:abcdef";
+  let upper = "did:example:ABCDEF";
+  let mk = |d: &str| VerificationMethod::new_from_jwk(CoreDID::parse(d).unwrap(), method_key(d, "#k"), Some("#k")).unwrap();
+  for first_upper in [false, true] {
+    for scope in [MethodScope::VerificationMethod, MethodScope::authentication(), MethodScope::key_agreement()] {
+      let (a, b) = if first_upper { (upper, lower) } else { (lower, upper) };
+      let mut d = CoreDocument::builder(Object::new()).id(CoreDID::parse(lower).unwrap()).build().unwrap();
+      if d.insert_method(mk(a), scope).is_err() {
+        log.push(format!("[case] inserting {a}#k into an empty document refused"));
+        continue;
+      }
+      if d.insert_method(mk(b), scope).is_err() {
+        log.push(format!("[case] {b}#k refused although only {a}#k (another DID) is in the document (scope {scope:?})"));
+        continue;
+      }
+      for q in [a, b] {
+        let full = format!("{q}#k");
+        match d.resolve_method(full.as_str(), None) {
+          Some(m) if m.id().to_string() == full => {}
+          other => log.push(format!("[case] resolve_method({full:?}) returned {:?} (scope {scope:?}, inserted first: {a})", other.map(|m| m.id().to_string()))),
+        }
+        match d.resolve_method(full.as_str(), Some(scope)) {
+          Some(m) if m.id().to_string() == full => {}
+          other => log.push(format!("[case] scoped resolve_method({full:?}) returned {:?}", other.map(|m| m.id().to_string()))),
+        }
+      }
+      // services under both DIDs
+      for q in [a, b] {
+        let sid = DIDUrl::parse(format!("{q}#s")).unwrap();
+        let svc = Service::builder(Object::new()).id(sid).type_("T").service_endpoint(Url::parse("https://example.com/").unwrap()).build().unwrap();
+        if d.insert_service(svc).is_err() {
+          log.push(format!("[case] service {q}#s refused"));
+        }
+      }
+      for q in [a, b] {
+        let full = format!("{q}#s");
+        match d.resolve_service(full.as_str()) {
+          Some(sv) if sv.id().to_string() == full => {}
+          other => log.push(format!("[case] resolve_service({full:?}) returned {:?}", other.map(|x| x.id().to_string()))),
+        }
+      }
+      if matches!(scope, MethodScope::VerificationMethod) {
+        let second = DIDUrl::parse(format!("{b}#k")).unwrap();
+        if d.attach_method_relationship(&second, MethodRelationship::AssertionMethod).is_err() {
+          log.push(format!("[case] attaching {b}#k refused"));
+        }
+        let refs: Vec<String> = d.assertion_method().iter().map(|r| r.id().to_string()).collect();
+        if refs != vec![format!("{b}#k")] {
+          log.push(format!("[case] attaching {b}#k produced the references {refs:?}"));
+        }
+      }
+      let second = DIDUrl::parse(format!("{b}#k")).unwrap();
+      match d.remove_method(&second) {
+        Some(m) if m.id() == &second => {}
+        other => log.push(format!("[case] remove_method({b}#k) removed {:?}", other.map(|m| m.id().to_string()))),
+      }
+      if d.resolve_method(format!("{a}#k").as_str(), None).is_none() {
+        log.push(format!("[case] removing {b}#k also removed {a}#k"));
+      }
+      if CoreDocument::from_json(&d.to_json().unwrap()).ok().as_ref() != Some(&d) {
+        log.push("[case] document with case-variant DIDs does not round-trip".to_owned());
+      }
+    }
+  }
+}
+
 fn tag(op: Op) -> &'static str {
   match op {
     Op::InsertMethod(..) => "[insert]",
@@ -332,6 +401,7 @@ pub fn document_ops(cex: &Value) -> Result<String, String> {
     universes.push((2, 5, 2, vec![Op::Dangling(0, 0)]));
     universes.push((2, 5, 1, vec![Op::Dangling(0, 2), Op::Dangling(1, 4)]));
     gate_battery(&mut log);
+    case_variant_battery(&mut log);
     for (n_ids, n_rels, depth, prefix) in universes {
     let mut ops = Vec::new();
     for i in 0..n_ids {
